@@ -92,6 +92,10 @@ def recording_mp(rec, queue_script=None):
             rec.ops.append(("is_set",))
             return self.flag
 
+        def wait(self, timeout=None):
+            rec.ops.append(("is_set",))
+            return self.flag
+
     class P:
         def __init__(self, target=None, args=(), kwargs=None, **kw):
             self.wid = len(rec.procs)
@@ -162,6 +166,8 @@ def infer_worker(call_worker, max_len=3, make_item=None):
     alphabet = ["item", "empty_unset", "empty_set"]
     table = {}
     nseq = 0
+    styles = set()
+    style = {"v": None}       # fixed by the first flag read of the first probe
     for n in range(1, max_len + 1):
         for seq in itertools.product(alphabet, repeat=n):
             nseq += 1
@@ -193,8 +199,17 @@ def infer_worker(call_worker, max_len=3, make_item=None):
 
             class Ev:
                 def is_set(self):
+                    if style["v"] is None:
+                        style["v"] = "before_get" if not log else "after_empty"
                     log.append(("is_set",))
-                    return state["flag"]
+                    if style["v"] == "after_empty":
+                        return state["flag"]          # flag as of the receive that just timed out
+                    # read BEFORE the receive: the flag that goes with the upcoming response
+                    k = state["k"]
+                    return k < len(seq) and seq[k] == "empty_set"
+
+                def wait(self, timeout=None):
+                    return self.is_set()
 
             def on_cb(item):
                 log.append(("cb", item))
@@ -205,6 +220,10 @@ def infer_worker(call_worker, max_len=3, make_item=None):
                 exited = True
             except Stop:
                 pass
+            if log and log[0] == ("is_set",):
+                styles.add("before_get")
+            elif ("is_set",) in log:
+                styles.add("after_empty")
             # split the log into reactions
             reactions = []
             cur = None
@@ -213,7 +232,7 @@ def infer_worker(call_worker, max_len=3, make_item=None):
                     if cur is not None:
                         reactions.append(cur)
                     cur = []
-                else:
+                elif cur is not None:
                     cur.append(ev)
             if cur is not None:
                 reactions.append(cur)
@@ -231,12 +250,12 @@ def infer_worker(call_worker, max_len=3, make_item=None):
                         elif ev[0] == "put" and ev[1] == item:
                             acts.append("put")
                         elif ev[0] == "is_set":
-                            acts.append("is_set")
+                            pass                          # (a flag read belonging to the next loop iteration)
                         else:
                             raise HarnessError("worker reaction outside the modelled family: %r on item" % (ev,))
                     key = ("item", tuple(acts), exited and last)
                 else:
-                    acts = tuple(ev[0] for ev in react)
+                    acts = tuple(ev[0] for ev in react if ev[0] != "is_set")
                     key = (resp, acts, exited and last)
                 prev = table.setdefault(resp, key)
                 if prev != key:
@@ -250,14 +269,17 @@ def infer_worker(call_worker, max_len=3, make_item=None):
     if post.count("cb") != 1:
         raise HarnessError("worker does not call the callback exactly once per item: %r" % (post,))
     eu, es = table.get("empty_unset"), table.get("empty_set")
-    return dict(post_item=post, checks_flag=bool(es and "is_set" in es[1]) or bool(eu and "is_set" in eu[1]),
-                exit_on_set=bool(es and es[2]), exit_on_unset=bool(eu and eu[2]), probes=nseq)
+    if len(styles) > 1:
+        raise HarnessError("worker reads the shutdown flag at varying points of its loop: %r" % (styles,))
+    return dict(post_item=post, checks_flag=bool(styles),
+                exit_on_set=bool(es and es[2]), exit_on_unset=bool(eu and eu[2]), probes=nseq,
+                flag_read=(list(styles)[0] if styles else "never"))
 
 
 # ------------------------------------------------------------------ 3. transition system of one producer/worker stage
 
 NOTPUT, INBUF, INPIPE, HELD, RUNNING, CBDONE, FINISHED, LOST = range(8)
-W_NOTSTARTED, W_IDLE, W_BUSY, W_EXITED, W_DEAD = range(5)
+W_NOTSTARTED, W_IDLE, W_BUSY, W_EXITED, W_DEAD, W_CHECK, W_READY = range(7)
 
 
 def stage_ts(script, table, n_workers, fault=False, detects=True):
@@ -346,17 +368,37 @@ def stage_ts(script, table, n_workers, fault=False, detects=True):
             else:
                 ts.t("cb_end w%d i%d" % (w, i), "w%d" % w, mine(st, ow, w, RUNNING),
                      (lambda st, cnt, wsn: (lambda s: {st: bmc.bv(FINISHED, 3), cnt: s[cnt] + 1, wsn: bmc.bv(W_IDLE, 3)}))(st, cnt, wsn))
-        # exit: a receive time-out (possible only while the pipe is empty) followed by the worker's flag test
+        # leaving the loop: a receive time-out (possible only while the pipe is empty) and the worker's test of the
+        # shutdown flag are SEPARATE steps; which comes first is part of the extracted table
+        ts.var("wf%d" % w, 1, 0)
+        style = table.get("flag_read", "after_empty")
+        idle_empty = (lambda wsn: (lambda s: z3.And(s[wsn] == W_IDLE, pipe_empty(s))))(wsn)
+        to = (lambda wsn, val: (lambda s: {wsn: bmc.bv(val, 3)}))
         if table["exit_on_unset"]:
-            g = (lambda wsn: (lambda s: z3.And(s[wsn] == W_IDLE, pipe_empty(s))))(wsn)
-        elif table["exit_on_set"]:
-            g = (lambda wsn: (lambda s: z3.And(s[wsn] == W_IDLE, pipe_empty(s), s["flag"] == 1)))(wsn)
+            ts.t("timeout-exit w%d" % w, "w%d" % w, idle_empty, to(wsn, W_EXITED))
+        elif not table["exit_on_set"]:
+            pass                                                  # never leaves its loop
+        elif style == "before_get":
+            # flag read, then the blocking receive; exits if the receive times out and the flag HAD been set
+            ts.t("readflag w%d" % w, "w%d" % w, (lambda wsn: (lambda s: z3.And(s[wsn] == W_IDLE, pipe_empty(s), s["flag"] == 0)))(wsn),
+                 (lambda wsn, w: (lambda s: {wsn: bmc.bv(W_READY, 3), "wf%d" % w: s["flag"]}))(wsn, w), spin=True)
+            ts.t("readflag w%d (flag up)" % w, "w%d" % w, (lambda wsn: (lambda s: z3.And(s[wsn] == W_IDLE, pipe_empty(s), s["flag"] == 1)))(wsn),
+                 (lambda wsn, w: (lambda s: {wsn: bmc.bv(W_READY, 3), "wf%d" % w: s["flag"]}))(wsn, w))
+            for i in range(I):
+                st, ow = "st%d" % i, "ow%d" % i
+                ts.t("get w%d i%d (ready)" % (w, i), "w%d" % w, (lambda wsn, st: (lambda s: z3.And(s[wsn] == W_READY, s[st] == INPIPE)))(wsn, st),
+                     (lambda wsn, st, ow, w: (lambda s: {wsn: bmc.bv(W_BUSY, 3), st: bmc.bv(HELD, 3), ow: bmc.bv(w, 3)}))(wsn, st, ow, w))
+            ts.t("timeout-exit w%d" % w, "w%d" % w, (lambda wsn, w: (lambda s: z3.And(s[wsn] == W_READY, pipe_empty(s), s["wf%d" % w] == 1)))(wsn, w), to(wsn, W_EXITED))
+            ts.t("timeout-retry w%d" % w, "w%d" % w, (lambda wsn, w: (lambda s: z3.And(s[wsn] == W_READY, pipe_empty(s), s["wf%d" % w] == 0, s["flag"] == 0)))(wsn, w), to(wsn, W_IDLE), spin=True)
+            ts.t("timeout-retry w%d (flag up meanwhile)" % w, "w%d" % w, (lambda wsn, w: (lambda s: z3.And(s[wsn] == W_READY, pipe_empty(s), s["wf%d" % w] == 0, s["flag"] == 1)))(wsn, w), to(wsn, W_IDLE))
         else:
-            g = None
-        if g is not None:
-            ts.t("exit w%d" % w, "w%d" % w, g, (lambda wsn: (lambda s: {wsn: bmc.bv(W_EXITED, 3)}))(wsn))
+            # receive times out first, the flag is tested afterwards (possibly much later)
+            ts.t("timeout w%d" % w, "w%d" % w, (lambda wsn: (lambda s: z3.And(s[wsn] == W_IDLE, pipe_empty(s), s["flag"] == 0)))(wsn), to(wsn, W_CHECK), spin=True)
+            ts.t("timeout w%d (flag up)" % w, "w%d" % w, (lambda wsn: (lambda s: z3.And(s[wsn] == W_IDLE, pipe_empty(s), s["flag"] == 1)))(wsn), to(wsn, W_CHECK))
+            ts.t("flagcheck-exit w%d" % w, "w%d" % w, (lambda wsn: (lambda s: z3.And(s[wsn] == W_CHECK, s["flag"] == 1)))(wsn), to(wsn, W_EXITED))
+            ts.t("flagcheck-retry w%d" % w, "w%d" % w, (lambda wsn: (lambda s: z3.And(s[wsn] == W_CHECK, s["flag"] == 0)))(wsn), to(wsn, W_IDLE), spin=True)
     ts.I, ts.W = I, W
-    ts.max_steps = len(script) + I + 3 * I + W + 2
+    ts.max_steps = len(script) + I + 3 * I + 5 * W + 2
     return ts
 
 
@@ -550,6 +592,13 @@ def sched_mp(S):
             self.f = True
 
         def is_set(self):
+            if S.me() != "main":
+                S.op("is_set")
+            return self.f
+
+        def wait(self, timeout=None):
+            if S.me() != "main":
+                S.op("is_set")
             return self.f
 
     class P:
@@ -686,7 +735,7 @@ WT_NOTREADY, WT_RBUF, WT_RPIPE, WT_HELD, WT_RUN, WT_CBDONE, WT_DBUF, WT_DPIPE, W
 
 
 def walk_ts(tree, n_workers, R, worker_post, done_maxsize, shutdown, fault=False, max_live_seeds=None, apex_breaks=True,
-            loop_detects_dead=False, detects=True):
+            loop_detects_dead=False, detects=True, flag_read="after_empty"):
     """tree: list of dicts(name, parent (index or None), bit, seed (bool: level == depth-1)).  The last entry is the apex.
     Liveness of every seed tile is a symbolic Boolean; an upper tile is live iff one of its children in the tree is.
     R: learned release table; shutdown: producer ops after the loop, e.g. ['close','join_thread','set','join','join'].
@@ -775,7 +824,7 @@ def walk_ts(tree, n_workers, R, worker_post, done_maxsize, shutdown, fault=False
             ts.t("set", "main", at, (lambda k: (lambda s: {"pcd": bmc.bv(k + 2, 5), "flag": bmc.bv(1, 1)}))(k))
         elif op[0] == "join":
             w = op[1]
-            ts.t("join w%d" % w, "main", (lambda k, w: (lambda s: z3.And(s["pcd"] == k + 1, s["wx%d" % w] != 0)))(k, w), nx)
+            ts.t("join w%d" % w, "main", (lambda k, w: (lambda s: z3.And(s["pcd"] == k + 1, z3.Or(s["wx%d" % w] == 1, s["wx%d" % w] == 2))))(k, w), nx)
         elif op[0] == "exitcode":
             w = op[1]
             ts.t("exitcode w%d" % w, "main", at, (lambda k, w: (lambda s: {"pcd": bmc.bv(k + 2, 5), "raised": z3.If(s["wx%d" % w] == 2, bmc.bv(1 if detects else 0, 1), s["raised"])}))(k, w))
@@ -830,11 +879,26 @@ def walk_ts(tree, n_workers, R, worker_post, done_maxsize, shutdown, fault=False
                 # a worker that reports BEFORE running the callback: the report may be consumed while the callback still runs
                 raise HarnessError("worker reports completion before running the callback (order %r): not modelled — child-before-parent is violated by construction" % (worker_post,))
         own_dbuf_empty = (lambda w: (lambda s: z3.And(*[z3.Not(z3.And(s["st%d" % i] == WT_DBUF, s["ow%d" % i] == w)) for i in range(N)])))(w)
-        ts.t("exit w%d" % w, "w%d" % w,
-             (lambda w, ode: (lambda s: z3.And(s["wx%d" % w] == 0, z3.Not(busy(s, w)), rpipe_empty(s), s["flag"] == 1, ode(s))))(w, own_dbuf_empty),
-             (lambda w: (lambda s: {"wx%d" % w: bmc.bv(1, 2)}))(w))
+        # leaving the loop: receive time-out (pipe empty) and flag test are separate steps (wx: 0 running, 3 = timed out, flag not yet tested)
+        idle = (lambda w, ode: (lambda s: z3.And(s["wx%d" % w] == 0, z3.Not(busy(s, w)), rpipe_empty(s), ode(s))))(w, own_dbuf_empty)
+        if flag_read == "before_get":
+            ts.var("wf%d" % w, 1, 0)
+            ts.t("readflag w%d" % w, "w%d" % w, (lambda idle: (lambda s: z3.And(idle(s), s["flag"] == 0)))(idle), (lambda w: (lambda s: {"wx%d" % w: bmc.bv(3, 2), "wf%d" % w: s["flag"]}))(w), spin=True)
+            ts.t("readflag w%d (flag up)" % w, "w%d" % w, (lambda idle: (lambda s: z3.And(idle(s), s["flag"] == 1)))(idle), (lambda w: (lambda s: {"wx%d" % w: bmc.bv(3, 2), "wf%d" % w: s["flag"]}))(w))
+            for i, t in enumerate(tree):
+                st, ow = "st%d" % i, "ow%d" % i
+                ts.t("get w%d %s (ready)" % (w, t["name"]), "w%d" % w, (lambda w, st: (lambda s: z3.And(s["wx%d" % w] == 3, s[st] == WT_RPIPE)))(w, st),
+                     (lambda st, ow, w: (lambda s: {st: bmc.bv(WT_HELD, 4), ow: bmc.bv(w, 3), "wx%d" % w: bmc.bv(0, 2)}))(st, ow, w))
+            ts.t("timeout-exit w%d" % w, "w%d" % w, (lambda w: (lambda s: z3.And(s["wx%d" % w] == 3, rpipe_empty(s), s["wf%d" % w] == 1)))(w), (lambda w: (lambda s: {"wx%d" % w: bmc.bv(1, 2)}))(w))
+            ts.t("timeout-retry w%d" % w, "w%d" % w, (lambda w: (lambda s: z3.And(s["wx%d" % w] == 3, rpipe_empty(s), s["wf%d" % w] == 0, s["flag"] == 0)))(w), (lambda w: (lambda s: {"wx%d" % w: bmc.bv(0, 2)}))(w), spin=True)
+            ts.t("timeout-retry w%d (flag up meanwhile)" % w, "w%d" % w, (lambda w: (lambda s: z3.And(s["wx%d" % w] == 3, rpipe_empty(s), s["wf%d" % w] == 0, s["flag"] == 1)))(w), (lambda w: (lambda s: {"wx%d" % w: bmc.bv(0, 2)}))(w))
+        else:
+            ts.t("timeout w%d" % w, "w%d" % w, (lambda idle: (lambda s: z3.And(idle(s), s["flag"] == 0)))(idle), (lambda w: (lambda s: {"wx%d" % w: bmc.bv(3, 2)}))(w), spin=True)
+            ts.t("timeout w%d (flag up)" % w, "w%d" % w, (lambda idle: (lambda s: z3.And(idle(s), s["flag"] == 1)))(idle), (lambda w: (lambda s: {"wx%d" % w: bmc.bv(3, 2)}))(w))
+            ts.t("flagcheck-exit w%d" % w, "w%d" % w, (lambda w: (lambda s: z3.And(s["wx%d" % w] == 3, s["flag"] == 1)))(w), (lambda w: (lambda s: {"wx%d" % w: bmc.bv(1, 2)}))(w))
+            ts.t("flagcheck-retry w%d" % w, "w%d" % w, (lambda w: (lambda s: z3.And(s["wx%d" % w] == 3, s["flag"] == 0)))(w), (lambda w: (lambda s: {"wx%d" % w: bmc.bv(0, 2)}))(w), spin=True)
     ts.N, ts.W, ts.tree = N, W, tree
-    ts.max_steps = N * 8 + len(shutdown) + W + 2
+    ts.max_steps = N * 8 + len(shutdown) + 5 * W + 2
     return ts
 
 
